@@ -436,7 +436,7 @@ func c10ConnSide(r *Run) {
 	rel := w.MustFn("(*connection).Release")
 	held := edgesEstablishing(rel, callResultAtom(ro.opDo, true))
 	if len(held) > 0 {
-		r.mustPass("C10.R4:Release-returns-token", "Release gives the slot token back on every path (a kept token silences the connection for ever)", rel, nil, held, func(i ssa.Instruction) bool { return isCall(i, ro.opDone) }, nil, nil, "done() on every path")
+		r.mustPass("C10.R4:Release-returns-token", "Release gives the slot token back on every path (a kept token silences the connection for ever)", rel, nil, held, func(i ssa.Instruction) bool { return isCallOrDefer(i, ro.opDone) }, nil, nil, "done() on every path")
 		for _, site := range findIns(rel, func(i ssa.Instruction) bool {
 			m, ok := callOnField(i, "connection", "inputBuffer")
 			return ok && (m == "resetTail" || m == "calcMaxSize")
